@@ -540,6 +540,35 @@ def quad_n(tier, seed):
     return base + (seed * 2654435761 % 2 ** 32) % (base // 8)
 
 
+def end_to_end_law(chk):
+    """real generator, every path of the sampler (long rejection runs included): DKW test per rate, and the generator
+    words around the first-branch threshold 1/c1 for ~10000 rates must give values in [0,1)"""
+    import math
+    out = os.path.join(chk.wd, "law.json")
+    nn = 1000000 if chk.tier == "quick" else 8000000
+    harness("c16", ["law", "out=" + out, "seed=%d" % chk.seed, "n=%d" % nn], timeout=3000)
+    r = json.load(open(out))
+    worst = 0.0
+    for c in r["laws"]:
+        if c.get("panic"):
+            chk.violation(dict(kind="law-e2e", what="panic"), dict(kind="law-e2e", cell=c, seed=chk.seed))
+            continue
+        chk.add("evaluations", c["n"])
+        rad = math.sqrt(math.log(2.0 / (1e-9 / len(r["laws"]))) / (2.0 * c["n"]))
+        worst = max(worst, c["ks"] / rad)
+        if c["out_of_range"]:
+            chk.violation(dict(kind="law-e2e", what="range"), dict(kind="law-e2e", cell=c, seed=chk.seed))
+        elif c["ks"] > rad:
+            chk.violation(dict(kind="law-e2e", what="law"), dict(kind="law-e2e", cell=c, radius=rad, seed=chk.seed))
+    chk.add("evaluations", r["probes"])
+    for b in r["probe_failures"]:
+        chk.violation(dict(kind="threshold-probe", what="range"), dict(kind="threshold-probe", case=b))
+    chk.cov["e2e_law_worst_ks_over_dkw_radius"] = worst
+    chk.cov["threshold_probes"] = r["probes"]
+    log("[C16] end-to-end law: %d rates x %d samples, worst sup-distance / DKW radius = %.3f; %d threshold probes around 1/c1, %d out of range"
+        % (len(r["laws"]), nn, worst, r["probes"], len(r["probe_failures"])))
+
+
 def run(chk):
     build_harness("c16")
     chk.cov["rule"] = ("TLC enumerates every behaviour of Exp01.tla on the grid (first draw, abscissa, ordinate cells) "
@@ -563,6 +592,7 @@ def run(chk):
         record_and_validate(chk, tabs, path)
     n = quad_n(chk.tier, chk.seed)
     quadrature(chk, n, chk.seed)
+    end_to_end_law(chk)
     chk.cov["exhaustive"] = False
     chk.cov["grids"] = ["N=%d,NU=%d" % g for g in grids]
     chk.cov["rates"] = [nm for nm, _, _ in lambdas()]
